@@ -989,7 +989,16 @@ class FileStorage(
                     if not current_data:
                         current_data = self._loadBack_impl(oid, cdataptr)[0]
 
-                    if data_to_be_undone != current_data:
+                    if (data_to_be_undone == current_data
+                            and self.blob_dir
+                            and self.is_blob_record(current_data)):
+                        # All records of a blob are the same; what the
+                        # later transaction changed is in the blob files.
+                        same = self._same_blob_data(oid, tid, ctid)
+                    else:
+                        same = data_to_be_undone == current_data
+
+                    if not same:
                         # OK, so the current data is different from
                         # the data being undone.  We can't just copy:
                         copy = False
